@@ -349,7 +349,7 @@ pub fn check_taskset(
             ..Default::default()
         };
         let mut m = Model::new(&spec, &b, tua, &opts);
-        let mut st = engine::explore(&m, 4_000_000);
+        let mut st = engine::explore(&m, 2_000_000);
         acc.systems += 1;
         acc.states += st.states as u64;
         acc.transitions += st.transitions as u64;
@@ -463,7 +463,7 @@ pub fn check_taskset(
                     // concluding anything
                     opts.cap_lp = 4;
                     m = Model::new(&spec, &b, tua, &opts);
-                    st = engine::explore(&m, 4_000_000);
+                    st = engine::explore(&m, 2_000_000);
                     wc = g.iter().map(|k| st.max_resp[*k] as u64).max().unwrap();
                 }
                 if wc == bound {
@@ -537,7 +537,7 @@ pub fn check_taskset(
             acc.sr_checked += 1;
         }
         if !ctx.quick() && ctx.pick(item * 8 + 5 + tua.unwrap_or(7) as u64, 2000) {
-            let st2 = engine::explore(&Model::new(&spec, &b, tua, &opts), 4_000_000);
+            let st2 = engine::explore(&Model::new(&spec, &b, tua, &opts), 2_000_000);
             if st2.states != st.states || st2.transitions != st.transitions {
                 machinery_error("exploration is not deterministic");
             }
